@@ -323,6 +323,11 @@ def make_singular(rng, tier, idx, real_diag=False):
     cls = str(rng.choice(['zero', 'zero', 'zerorow', 'rankdef', 'rankdef']))
     if real_diag:
         cls = ['zero', 'zerorow'][idx % 2]
+    # stratum: EVERY bin rank deficient (low-rank noise estimate from few frames) with the automatic reference channel -
+    # the filter then lies in the null space of the noise PSD and has no noise output (fix 1623b5d)
+    all_def = (not real_diag) and _SCOUNT[0] % 4 == 2
+    if all_def:
+        cls, bins, which = 'rankdef', list(range(F)), ['wmwf', 'souden'][(_SCOUNT[0] // 4) % 2]
     for f in bins:
         if cls == 'zero':
             m = int(rng.integers(0, 3))
@@ -336,7 +341,9 @@ def make_singular(rng, tier, idx, real_diag=False):
             Pn[f][k, :] = 0
         else:
             r = int(rng.integers(1, D))
-            if rng.random() < 0.5:      # exactly singular: Gaussian-integer factors
+            if all_def:
+                r = int(rng.integers(1, max(2, D // 2)))
+            if rng.random() < 0.5 and not all_def:      # exactly singular: Gaussian-integer factors
                 a = rng.integers(-3, 4, (D, r)) + 1j * rng.integers(-3, 4, (D, r))
             else:
                 a = crandn(rng, D, r)
@@ -350,7 +357,7 @@ def make_singular(rng, tier, idx, real_diag=False):
             else:
                 k = int(rng.integers(0, D))
                 Pn[f][k, k] = 0
-    auto = bool(rng.random() < 0.3)
+    auto = bool(rng.random() < 0.3) or all_def
     _SCOUNT[0] += 1
     single = cls in ('zero', 'zerorow') and _SCOUNT[0] % 3 == 0
     if single:
@@ -382,8 +389,20 @@ def eval_singular(rp, rng=None):
     try:
         w = call(Px, Pn)
     except Exception as e:
-        return ('%s raised %s on a stack with %s bins %s: %s' % (which, type(e).__name__, cls, bins, str(e)[:100]),
-                '%s:raises:%s' % (tag, type(e).__name__), None, None)
+        # the filters of the explicit reference channels tell an overflowing solve (known finding, needs a rank-revealing
+        # solve) from a failure of the automatic channel selection on perfectly bounded filters (fix 1623b5d)
+        size = 'overflowing-filter'
+        if ref is None:
+            try:
+                ws = [(get_mvdr_vector_souden(Px, Pn, ref_channel=r) if which == 'souden' else
+                       get_wmwf_vector(Px, Pn, reference_channel=r, **({} if mu is None else {'distortion_weight': mu})))
+                      for r in range(D)]
+                if all(np.all(np.isfinite(x)) and np.abs(x).max() < 1e100 for x in ws):
+                    size = 'bounded-filter'
+            except Exception:
+                pass
+        return ('%s raised %s on a stack with %s bins %s (%s): %s' % (which, type(e).__name__, cls, bins, size, str(e)[:100]),
+                '%s:raises:%s:%s' % (tag, type(e).__name__, size), None, None)
     if w.shape != (F, D):
         return 'result shape %s' % (w.shape,), '%s:shape' % tag, None, None
     if not np.all(np.isfinite(w)):
